@@ -61,6 +61,12 @@ pub struct RunStats {
     /// small-alphabet prefix digest (len<=4) when the run is in the narrow corner
     pub prefix_digests: Vec<u64>,
     pub inconclusive: bool,
+    /// named digest sets (distinct-count measures merged across runs)
+    pub sets: BTreeMap<&'static str, Vec<u64>>,
+    /// named count tables summed across runs (C15)
+    pub tables: BTreeMap<String, Vec<u64>>,
+    /// named maxima (merged by max across runs)
+    pub maxes: BTreeMap<&'static str, u64>,
 }
 
 impl RunStats {
@@ -69,6 +75,22 @@ impl RunStats {
     }
     pub fn probe(&mut self, k: &'static str) {
         *self.probes.entry(k).or_insert(0) += 1;
+    }
+    pub fn max(&mut self, k: &'static str, v: u64) {
+        let e = self.maxes.entry(k).or_insert(0);
+        if v > *e {
+            *e = v;
+        }
+    }
+    pub fn set(&mut self, k: &'static str, d: u64) {
+        self.sets.entry(k).or_default().push(d);
+    }
+    pub fn table_add(&mut self, k: &str, len: usize, idx: usize, n: u64) {
+        let t = self.tables.entry(k.to_string()).or_insert_with(|| vec![0; len]);
+        if t.len() < len {
+            t.resize(len, 0);
+        }
+        t[idx] += n;
     }
     pub fn probe_n(&mut self, k: &'static str, n: u64) {
         *self.probes.entry(k).or_insert(0) += n;
@@ -95,6 +117,9 @@ pub fn install_panic_hook() {
             "panic".to_string()
         };
         let loc = info.location().map(|l| format!("{}:{}", l.file(), l.line())).unwrap_or_default();
+        if std::env::var("VERIF_PANIC_TRACE").is_ok() {
+            eprintln!("panic: {} at {}", msg, loc);
+        }
         LAST_PANIC.with(|p| *p.borrow_mut() = format!("{} at {}", msg, loc));
     }));
 }
